@@ -33,8 +33,10 @@ CodeAt(i) == i - 2
 SendAll0   == [i \in 1..65538 |-> S(CodeAt(i), 0, "echo")]
 SendAll123 == [i \in 1..65538 |-> S(CodeAt(i), 123, "echo")]
 RecvAll    == [i \in 1..65536 |-> Rv(i - 1, 0)]
+(* out-of-range values that alias a sendable code when truncated to 16 bits *)
+AliasCodes == UNION { {65536 + c, 131072 + c, c - 65536, 65536 * 4096 + c} : c \in {1000, 1001, 1005, 1011, 3000, 4999} }
 Small == SetToSeq(
-     { S(c, r, "echo") : c \in BoundaryCodes \cup {2147483647}, r \in ReasonLens }
+     { S(c, r, "echo") : c \in BoundaryCodes \cup {2147483647} \cup AliasCodes, r \in ReasonLens }
   \cup { S(c, 3, p) : c \in {1000, 1001, 3000, 4999, 1005}, p \in {"other", "none"} }
   \cup { Rv(c, r) : c \in (BoundaryCodes \cap (0..65535)), r \in {1, 122, 123} }
   \cup { Rv(0, r) : r \in {-1, -2} })
